@@ -62,6 +62,7 @@ class Gate(io.RawIOBase):
         self.n = 0
         self.full = False
         self.actor = SIM.actor
+        self.owner = (SIM.actor, SIM.epoch)
         _FD_PATHS.setdefault(fd, path)
         self.plan = self._match_plan()
 
@@ -91,7 +92,7 @@ class Gate(io.RawIOBase):
         kind = plan["kind"]
         SIM.event(kind, self.rel, self.n, yield_=False)
         if kind == "kill":
-            SIM.dead.add(SIM.actor)
+            SIM.kill_current()
             raise SimKill(self.rel, self.n)
         if kind == "enospc":
             self.full = True
@@ -102,8 +103,11 @@ class Gate(io.RawIOBase):
             if s is not None and s.is_actor_thread():
                 s.suspend_self()
 
+    def owner_dead(self):
+        return self.owner in SIM.killed
+
     def write(self, b):
-        if SIM.actor in SIM.dead:
+        if self.owner_dead():
             return len(b)
         if self.full:
             raise OSError(errno.ENOSPC, "No space left on device (simulated)", self.path)
@@ -125,7 +129,7 @@ class Gate(io.RawIOBase):
             self.n += k
             total += k
             SIM.event("write", self.rel, self.n)
-            if SIM.actor in SIM.dead:   # killed by another route while parked
+            if self.owner_dead():   # killed by another route while parked
                 return len(b)
         return len(b)
 
@@ -133,7 +137,8 @@ class Gate(io.RawIOBase):
         if not self.closed:
             plan = self.plan
             try:
-                if plan is not None and plan["at"] == "close" and SIM.actor not in SIM.dead:
+                if plan is not None and plan["at"] == "close" and not self.owner_dead() \
+                        and not getattr(self, "_finalizing", False):
                     self._fire(plan)
             finally:
                 try:
@@ -141,9 +146,16 @@ class Gate(io.RawIOBase):
                 except OSError:
                     pass
                 _FD_PATHS.pop(self.fd, None)
-                if SIM.actor not in SIM.dead:
+                if not self.owner_dead() and not getattr(self, "_finalizing", False):
                     SIM.event("close-w", self.rel, self.n, yield_=False)
                 super().close()
+
+    def __del__(self):
+        self._finalizing = True
+        try:
+            self.close()
+        except BaseException:  # noqa: BLE001
+            pass
 
 
 class RFile:
@@ -218,7 +230,7 @@ def sim_open(file, mode="r", buffering=-1, encoding=None, errors=None, newline=N
         if "+" in mode:   # not used by the code under test; recorded, not gated
             SIM.event("open-rw", rel(p))
             return _real_open(file, mode, buffering, encoding, errors, newline, closefd, opener)
-        if SIM.actor in SIM.dead:
+        if SIM.is_dead():
             return _wrap_gate(p, _real_os_open(os.devnull, os.O_WRONLY), mode, buffering,
                               encoding, errors, newline)
         SIM.event("open-w", rel(p), mode.replace("b", "").replace("t", ""))
@@ -253,7 +265,7 @@ def sim_os_open(path, flags, mode=0o777, *, dir_fd=None):
             return _real_os_open(path, flags, mode)
         return _real_os_open(path, flags, mode, dir_fd=dir_fd)
     if flags & (os.O_WRONLY | os.O_RDWR):
-        if SIM.actor in SIM.dead:
+        if SIM.is_dead():
             return _real_os_open(os.devnull, os.O_WRONLY)
         SIM.event("open-w", rel(p), "os")
         fd = _real_os_open(path, flags, mode)
@@ -270,7 +282,7 @@ def _mutator(name, npaths):
         if kw.get("dir_fd") is not None or kw.get("src_dir_fd") is not None \
                 or not any(p and under_root(p) for p in paths):
             return real(*args, **kw)
-        if SIM.actor in SIM.dead:
+        if SIM.is_dead():
             return None
         plan = SIM.write_plan
         if plan and not plan.get("fired") and plan.get("before_op") == name \
@@ -278,10 +290,10 @@ def _mutator(name, npaths):
             plan["fired"] = True
             SIM.fault("kill")
             SIM.event("kill-before", name, *[rel(p) for p in paths if p], yield_=False)
-            SIM.dead.add(SIM.actor)
+            SIM.kill_current()
             raise SimKill(name)
         SIM.event(name, *[rel(p) for p in paths if p])
-        if SIM.actor in SIM.dead:
+        if SIM.is_dead():
             return None
         return real(*args, **kw)
 
